@@ -66,7 +66,9 @@ func (m *toolManager) withToolListFilter(filter ToolListFilter) *toolManager {
 
 // withMethodNameModifier sets the method name modifier.
 func (m *toolManager) withMethodNameModifier(modifier MethodNameModifier) *toolManager {
+	m.mu.Lock()
 	m.methodNameModifier = modifier
+	m.mu.Unlock()
 	return m
 }
 
@@ -210,6 +212,7 @@ func (m *toolManager) handleCallTool(
 	// Get tool with proper locking.
 	m.mu.RLock()
 	registeredTool, ok := m.tools[toolName]
+	methodNameModifier := m.methodNameModifier
 	m.mu.RUnlock()
 
 	if !ok {
@@ -260,8 +263,8 @@ func (m *toolManager) handleCallTool(
 	ctx = withClientSession(ctx, session)
 
 	// Modify method name for monitoring if modifier is available.
-	if m.methodNameModifier != nil {
-		m.methodNameModifier(ctx, MethodToolsCall, toolName)
+	if methodNameModifier != nil {
+		methodNameModifier(ctx, MethodToolsCall, toolName)
 	}
 
 	// Execute tool
